@@ -244,7 +244,7 @@ func RunCase(in Input, fixed bool, restarts int, r *hx.Rand) (Observed, error) {
 			if err != nil {
 				// a store the fresh services cannot start from is itself an observation
 				for s := 0; s < in.NSrc; s++ {
-					obs.Restarts = append(obs.Restarts, Robs{At: sn.At, S: s, Tag: 9999, Pos: 0})
+					obs.Restarts = append(obs.Restarts, Robs{At: sn.At, S: s, Tag: 4095, Pos: 0})
 				}
 				continue
 			}
@@ -306,8 +306,11 @@ func Main(prop string) {
 		}
 		root := hx.NewRand(o.Seed)
 		for i, m := range cs {
-			if c, ok := m["case"].(map[string]any); ok { // a replay file written by the driver
-				m = c
+			for _, k := range []string{"case", "broken_correspondence_case"} { // a replay file written by the driver
+				if c, ok := m[k].(map[string]any); ok {
+					m = c
+					break
+				}
 			}
 			var in Input
 			good := false
@@ -331,6 +334,16 @@ func Main(prop string) {
 		for i := 0; i < o.N; i++ {
 			r := root.Fork(uint64(o.Shard)<<32 | uint64(i))
 			emit(GenRandom(r, 40), r)
+		}
+		// "full<L>": the random schedules plus this shard's slice of the exhaustive space
+		var maxLen int
+		if n, _ := fmt.Sscanf(o.Mode, "full%d", &maxLen); n == 1 && maxLen > 0 {
+			Exhaustive(maxLen, func(k int, in Input) {
+				if k%o.Shards != o.Shard {
+					return
+				}
+				emit(in, root.Fork(uint64(k)))
+			})
 		}
 	}
 	if err := w.Close(chk); err != nil {
